@@ -4,7 +4,7 @@
      <id> B <events>      events: S|qname|an|av|...  E  C|chars  I|ignorable-ws  M|comment  P|target|data
      <id> W <dom tokens>  S|qname|an|av|...  E  T|text  D|cdata  R|name ... r  M|comment  P|target|data  Y|name|entities
      <id> O <bs> <writes> w|units  c|unit  n|units  f
-   Output:  <id> <depth>:<kind>:<index>:<name>:<value> ...   (document order; kinds e a t d r c p y)   or  <id> ERR
+   Output:  <id> <depth>:<kind>:<index>:<name>:<value> ...   (document order; kinds e a t d r c p; the document type is not linked)   or  <id> ERR
             <id> W|units N|units ... B|pending-buffer G|narrow_ok                                        (mode O) *)
 let str_of_field (f : string) : n list =
   if f = "" then [] else List.map (fun h -> n_of_int (int_of_string ("0x" ^ h))) (String.split_on_char ',' f)
@@ -48,7 +48,6 @@ let rec dump_wnode d acc = function
   | WEntRef (i, nm, kids) -> List.fold_left (dump_wnode (d + 1)) (item d "r" i nm [] :: acc) kids
   | WComment (i, s) -> item d "c" i [] s :: acc
   | WPi (i, t, s) -> item d "p" i t s :: acc
-  | WDoctype (i, nm, k) -> item d "y" i nm [] :: acc
 
 (* token list -> xnode list; returns (nodes, remaining tokens) at the matching close token *)
 let rec parse_xnodes (toks : string list) : xnode list * string list =
